@@ -1,17 +1,99 @@
 /- The array-encoded Huffman tree of huffman_helper.rs vs canonical-code decoding (C05 / C03 growth). -/
 import Preflate.Model.HuffTree
+import Preflate.Proofs.HuffTreeWalk
 namespace Preflate.Proofs
 open Preflate
+
+/-- `decode_symbol` starts at the root pair, the block of level 1 -/
+theorem root_eq {l : List Nat} {t : Array Int} (ht : TreeOK l t) :
+    (t.size : Int) - 2 = link l 0 0 := by
+  have h1 : startOf l 0 = startOf l (0 + 1) + width l 1 := startOf_eq l (by omega)
+  have h2 : width l 1 = 2 := by simp [width, cntP]
+  have := ht.size
+  unfold link
+  omega
+
+theorem mem_codeTable {l : List Nat} {c : Bits} {s : Nat} (h : (c, s) ∈ codeTable l) :
+    c = codeBits l s ∧ s < l.length ∧ l.getD s 0 ≠ 0 := by
+  simp only [codeTable, List.mem_filterMap, List.mem_range] at h
+  obtain ⟨a, ha, hm⟩ := h
+  split at hm
+  · simp at hm
+  · rename_i hne
+    simp only [Option.some.injEq, Prod.mk.injEq] at hm
+    obtain ⟨rfl, rfl⟩ := hm
+    exact ⟨rfl, ha, hne⟩
+
+theorem codeTable_mem {l : List Nat} {s : Nat} (hs : s < l.length) (hl : l.getD s 0 ≠ 0) :
+    (codeBits l s, s) ∈ codeTable l := by
+  simp only [codeTable, List.mem_filterMap, List.mem_range]
+  exact ⟨s, hs, by rw [if_neg hl]⟩
+
+theorem codeBits_length (l : List Nat) (s : Nat) : (codeBits l s).length = l.getD s 0 := by
+  have : ∀ n v, (bitsOfNat n v).length = n := by
+    intro n
+    induction n with
+    | zero => intro v; rfl
+    | succ n ih => intro v; simp [bitsOfNat, ih]
+  simp [codeBits, this]
+
+theorem isPrefix_append (a b : Bits) : isPrefix a (a ++ b) = true := by
+  induction a with
+  | nil => rfl
+  | cons x a ih => simp [isPrefix, ih]
+
+/-- a table entry whose code is a prefix of the input is what the tree walk decodes -/
+theorem walk_of_prefix {l : List Nat} {t : Array Int} (hc : Complete l) (ht : TreeOK l t)
+    {c : Bits} {s : Nat} {bs : Bits} (hm : (c, s) ∈ codeTable l) (hp : isPrefix c bs = true) :
+    decodeSymTree t bs = .ok (s, bs.drop c.length) := by
+  obtain ⟨rfl, hs, hl⟩ := mem_codeTable hm
+  have hbs := isPrefix_eq hp
+  generalize bs.drop (codeBits l s).length = rest at hbs
+  subst hbs
+  unfold decodeSymTree
+  rw [root_eq ht, List.length_append, codeBits_length,
+    show l.getD s 0 + rest.length + 1 = (rest.length + 1) + l.getD s 0 by omega]
+  exact walk_code hc ht s hs hl rest _
+
+theorem decodeSymTree_spec {l : List Nat} {t : Array Int} (hc : Complete l) (ht : TreeOK l t)
+    (bs : Bits) : decodeSymTree t bs = decodeSym (codeTable l) bs := by
+  have hfwd := walk_fwd hc ht bs 0 0 (bs.length + 1) (by omega) (by simp [cntP])
+    (by simp [width]) (by omega)
+  rw [← root_eq ht] at hfwd
+  change decodeSymTree t bs = .error .err ∨ ∃ s rest, decodeSymTree t bs = .ok (s, rest) ∧ _ at hfwd
+  unfold decodeSym
+  split
+  · rename_i c s hf
+    have hp : isPrefix c bs = true :=
+      List.find?_some (p := fun e : Bits × Nat => isPrefix e.1 bs) hf
+    rw [walk_of_prefix hc ht (List.mem_of_find?_eq_some hf) hp]
+  · rename_i hf
+    rcases hfwd with h | ⟨s, rest, h, hbs, hs, hl⟩
+    · exact h
+    · exfalso
+      rw [List.find?_eq_none] at hf
+      have := hf _ (codeTable_mem hs hl)
+      simp only [bitsOfNat, List.reverse_nil, List.nil_append] at hbs
+      rw [hbs, isPrefix_append] at this
+      exact this rfl
 
 /-- index safety: for every length vector the validity check accepts, building the tree stays inside
     the allocated array and walking it never indexes out of range, whatever the input bits -/
 theorem tree_index_safe (l : List Nat) (h : validLengths l = true) :
     ∃ t, buildTree l = .ok t ∧ ∀ bs m, decodeSymTree t bs ≠ .error (.panic m) := by
-  sorry
+  have hc := complete_of_valid h
+  have ht := treeOK_blocks hc
+  refine ⟨_, buildTree_eq hc, fun bs m => ?_⟩
+  have hfwd := walk_fwd hc ht bs 0 0 (bs.length + 1) (by omega) (by simp [cntP])
+    (by simp [width]) (by omega)
+  rw [← root_eq ht] at hfwd
+  change decodeSymTree _ bs = .error .err ∨ ∃ s rest, decodeSymTree _ bs = .ok (s, rest) ∧ _ at hfwd
+  rcases hfwd with h | ⟨s, rest, h, _⟩ <;> rw [h] <;> simp
 
 /-- the tree walk decodes exactly what canonical-code matching decodes -/
 theorem decodeSymTree_eq (l : List Nat) (h : validLengths l = true) (bs : Bits) :
     ∃ t, buildTree l = .ok t ∧ decodeSymTree t bs = decodeSym (codeTable l) bs := by
-  sorry
+  have hc := complete_of_valid h
+  exact ⟨_, buildTree_eq hc, decodeSymTree_spec hc (treeOK_blocks hc) bs⟩
 
 end Preflate.Proofs
